@@ -34,6 +34,21 @@ PROPS = {
     trusted_base=[A['A2'], A['A7'], A['A9'], A['L2']],
     assumptions=[A['A2'], A['A6'], A['A7'], A['A9']],
     explanation='Gt operations are Fq12 operations'),
+ 'C04': dict(
+    tasks=T('mirvc:specs_groups', 'gsearch:all'),
+    trusted_base=[A['A2'], A['A3'], A['A4'], A['A7'], A['A9'], 'hand-over: Base-field ring contracts (C06/C12)'],
+    assumptions=[A['A3'], A['A4'], A['A6'], A['A7']],
+    explanation='double, every branch of Add (4 representation combinations x generic/equal/opposite/identity), Neg, Sub, AddAssign verified generically over P::Base from rustc MIR against the affine chord-and-tangent law; valid_rep(out) proved as ideal membership modulo the curve equations'),
+ 'C15': dict(
+    tasks=T('mirvc:specs_groups', 'gsearch:all'),
+    trusted_base=[A['A2'], A['A4'], A['A7'], A['A9']],
+    assumptions=[A['A4'], A['A6'], A['A7']],
+    explanation='==, is_zero, to_affine, to_jacobian, zero verified over the affine view for identity / z=1 / general representatives and all relations'),
+ 'C09': dict(
+    tasks=T('mirvc:specs_groups', 'gsearch:all'),
+    trusted_base=[A['A3'], A['A4'], A['A7'], A['A9']],
+    assumptions=[A['A3'], A['A4'], A['A7']],
+    explanation='AffineG::new: Ok iff y^2 = x^3 + b and (check_order => [r-1]P + P = O), for both values of check_order'),
 }
 
 HOOK_COMMITS = ['8aeb3f0']
